@@ -15,7 +15,14 @@ import ast
 import json
 import os
 
+from lib import bindings, schemagen
+from lib.gdsgen import dec_of
 from lib.vcommon import REPO, coq_list, coq_opt, coq_str, coq_z
+
+TREE_CLASSES = ["Cell", "Morphology", "Segment", "SegmentParent", "Point3DWithDiam", "SegmentGroup", "Member", "Include",
+                "BiophysicalProperties", "MembraneProperties", "IntracellularProperties", "SpikeThresh", "InitMembPotential",
+                "SpecificCapacitance", "Resistivity", "ChannelDensity"]
+INIT_IDS = {"factory": ("morphology", "biophys"), "bare": ("morphology", "biophys"), "custom": ("morph_x", "bio_x")}
 
 KINDS = ["SpikeThresh", "InitMembPotential", "SpecificCapacitance", "ChannelDens", "Resistivity"]   # order of Builder.kinds
 SET_KINDS = ["SpikeThresh", "InitMembPotential", "SpecificCapacitance", "Resistivity"]
@@ -313,7 +320,8 @@ def q_op(o):
         return "Reload"
     if k == "chan":
         g = o["group"] if o["group"] is not None else "all"
-        return "(SetProp ChannelDens %s %s %s)" % (coq_z(10 * o["k"] + o["erev"]), q_bool(nmlid(g) and nmlid(o.get("ion", "x"))), q_s(g))
+        ion = {"non_specific": 0, "na": 1}[o.get("ion", "non_specific")]
+        return "(SetProp ChannelDens %s %s %s)" % (coq_z(100 * o["k"] + 10 * ion + o["erev"]), q_bool(nmlid(g)), q_s(g))
     if k == "prop":
         o = dict(o, group=o["group"] if o["group"] is not None else "all")
         # valid = the whole component (value string and segmentGroup attribute) meets its facets
@@ -335,7 +343,7 @@ class Interner:
         self.names = {}
         self.defs = []
 
-    TYPES = {"ls": "list oseg", "lg": "list group", "lp": "list (pkind * Z * string)"}
+    TYPES = {"ls": "list oseg", "lg": "list group", "lp": "list (pkind * Z * string)", "o": "xobj", "lo": "list xobj"}
 
     def ref(self, term, prefix):
         key = prefix + term
@@ -420,11 +428,64 @@ def cases_v(cases, results):
             "Eval vm_compute in (model_counterexamples true cases).\n")
 
 
+# ---- component trees (Model/BuilderTree.v)
+def t_val(v):
+    if v is None:
+        return "VNone"
+    if "s" in v:
+        return "(VStr %s)" % q_s(v["s"])
+    if "i" in v:
+        return "(VInt %s)" % coq_z(v["i"])
+    if "f" in v:
+        m, e = dec_of(v["f"])
+        return "(VFlt (%s, %d%%nat))" % (coq_z(m), e)
+    if "o" in v:
+        return "(VObj %s)" % t_obj(v["o"])
+    if "l" in v:
+        return "(VObjs %s)" % INT.ref(coq_list([t_obj(x) for x in v["l"]]), "lo")
+    raise ValueError("raw content in a builder cell")
+
+
+def t_obj(d):
+    if d["cls"] == "SegmentGroup":
+        # members / includes in canonical order (compared as multisets, see BuilderTree.canon_group)
+        d = dict(d, fields=[[n, {"l": sorted(v["l"], key=lambda x: x["fields"][1][1].get("i", 0) if n == "members"
+                                              else x["fields"][1][1].get("s", ""))}
+                             if n in ("members", "includes") and v and "l" in v else v] for n, v in d["fields"]])
+    return INT.ref("(Obj %s %s)" % (q_s(d["cls"]), coq_list(["(%s, %s)" % (q_s(n), t_val(v)) for n, v in d["fields"]])), "o")
+
+
+def tree_eligible(c):
+    """the tree comparison covers sequences without a reload (an empty container is not written to the file) and in
+    which the default groups are the builder's own (their notes)"""
+    for o in c["ops"]:
+        if o["op"] == "reload":
+            return False
+        if o["op"] in ("group", "ugroup") and o["id"] in DEFAULT_NAMES:
+            return False
+        if o["op"] in ("seg", "unbranched") and o.get("group") in DEFAULT_NAMES:
+            return False
+    return True
+
+
+def trees_v(items):
+    global INT
+    INT = Interner()
+    terms = []
+    for c, r in items:
+        mid, bid = INIT_IDS[c["init"]]
+        terms.append("(mkTreeCase %s %s %s %s %s)" % (q_bool(c["init"] == "factory"), coq_list([q_op(o) for o in c["ops"]]),
+                                                      q_s(mid), q_s(bid), t_obj(r["final"]["tree"])))
+    head = HEADER.replace("Model.Groups Model.Builder.", "Lib.Dec Model.Gds Model.GdsExec Model.Groups Model.Builder Model.BuilderTree.")
+    return (head + "\n".join(INT.defs) + "\nDefinition trees : list tree_case := [\n  " + ";\n  ".join(terms) + "\n].\n"
+            "Eval vm_compute in (tree_mismatches trees).\n")
+
+
 def parse_idx(s):
     s = s.strip()
     if s in ("[]", "nil"):
         return []
-    return [int(x) for x in s.strip("[]").split(";") if x.strip()]
+    return [int(x.replace("%nat", "")) for x in s.strip("[]").split(";") if x.strip()]
 
 
 # ------------------------------------------------------- the property on the implementation
@@ -718,10 +779,27 @@ def run(ck):
     cases = [dict(c) for c in CORPUS]
     while len(cases) < n:
         cases.append(gen_case(ck.rng, long=(ck.rng.random() < 0.15)))
-    payload = [{"init": c["init"], "ops": c["ops"]} for c in cases]
+    # ---- the binding / schema / validation tables of this run (the functions C02 uses): the field order of the component
+    #      classes for the tree dump, and Gen_*.v for Props/C15.v
+    tab = bindings.translate(ck)
+    tree_order = None
+    tables_ok = False
+    if tab is not None:
+        schemagen.runtime_tie(ck, tab)
+        mode = schemagen.validate_mode(ck)
+        Sx = schemagen.translate_schema(ck)
+        if Sx is not None:
+            tables_ok = bool(schemagen.gen_validate(ck, tab, mode) and schemagen.gen_schema(ck, Sx) and bindings.gen_bindings(ck, tab))
+        TT = bindings.Tables(tab)
+        tree_order = {k: TT.field_order(k) for k in TREE_CLASSES if k in TT.C}
+    ntree = 0
+    for i, c in enumerate(cases):
+        if tree_order and tree_eligible(c) and (c["kind"].startswith("corpus") or i % 3 == 0):
+            c["tree"] = True
+    payload = [{"init": c["init"], "ops": c["ops"], "tree": bool(c.get("tree"))} for c in cases]
     results = []
     for k in range(0, len(payload), 600):
-        results += ck.impl("c15_impl.py", {"cases": payload[k:k + 600]}, timeout=900)["results"]
+        results += ck.impl("c15_impl.py", {"cases": payload[k:k + 600], "tree_order": tree_order}, timeout=900)["results"]
 
     any_bad = False
     v0 = True
@@ -746,6 +824,27 @@ def run(ck):
         else:
             v0 = False
     ck.extra["implementation_matches_prefix_model_v0"] = bool(v0 and any_bad)
+
+    # ---- the finished real cell as a component tree = cell_tree of the model's final state
+    titems = [(c, r) for c, r in zip(cases, results) if r["final"] and isinstance(r["final"].get("tree"), dict)
+              and "cls" in r["final"]["tree"]]
+    for k in range(0, len(titems), 150):
+        chunk_t = titems[k:k + 150]
+        try:
+            text = trees_v(chunk_t)
+        except ValueError as e:
+            ck.oblige("Trees_C15_%d.v:cell_tree_equals_dumped_cell" % (k // 150), False, str(e), kind="correspondence")
+            continue
+        ok, res, out = ck.coq_eval("Trees_C15_%d.v" % (k // 150), text, timeout=900)
+        good = ok and len(res) == 1 and parse_idx(res[0]) == []
+        ck.oblige("Trees_C15_%d.v:cell_tree_equals_dumped_cell" % (k // 150), good,
+                  detail=(out[-1500:] if not ok else "differing tree indices: %s" % (res[0] if res else "none")), kind="correspondence")
+        if ok and len(res) == 1:
+            for i in parse_idx(res[0])[:5]:
+                any_bad = True
+                ck.disagree("BuilderTree.cell_tree", {"init": chunk_t[i][0]["init"], "ops": chunk_t[i][0]["ops"]},
+                            "see model", {"tree": "differs"}, note="tree %d of Trees_C15_%d.v" % (i, k // 150))
+    ck.extra["component_trees_compared"] = len(titems)
 
     ck.compile_props()
 
